@@ -24,6 +24,11 @@ func TestMain(m *testing.M) { fix.Quiet(); stats.Main(m) }
 type scripted struct {
 	chunks  [][]byte
 	written bytes.Buffer
+	// emptyEvery > 0: before every emptyEvery-th chunk the device first returns
+	// (0, nil) once, which io.Reader allows (a read that timed out empty)
+	emptyEvery int
+	nread      int
+	gaveEmpty  bool
 }
 
 func (s *scripted) Read(p []byte) (int, error) {
@@ -36,6 +41,12 @@ func (s *scripted) Read(p []byte) (int, error) {
 	if len(p) == 0 {
 		return 0, nil
 	}
+	if s.emptyEvery > 0 && s.nread%s.emptyEvery == 0 && !s.gaveEmpty {
+		s.gaveEmpty = true
+		return 0, nil
+	}
+	s.gaveEmpty = false
+	s.nread++
 	n := copy(p, s.chunks[0])
 	s.chunks[0] = s.chunks[0][n:]
 	return n, nil
@@ -65,6 +76,10 @@ type event struct {
 	err   error
 }
 
+// emptyReadsEvery is set by a property for the duration of one case (cases of
+// one test process run one after the other).
+var emptyReadsEvery int
+
 // readAll reads until the script is exhausted; returns the events in order.
 func readAll(stream []byte, cuts []int, maxLen int) ([]event, error) {
 	var chunks [][]byte
@@ -76,7 +91,7 @@ func readAll(stream []byte, cuts []int, maxLen int) ([]event, error) {
 		}
 	}
 	chunks = append(chunks, stream[prev:])
-	dev := &scripted{chunks: chunks}
+	dev := &scripted{chunks: chunks, emptyEvery: emptyReadsEvery}
 	cw := client.NewCobsWrapper(dev, maxLen)
 	buf := make([]byte, maxLen) // as client/serial.go does
 	var evs []event
@@ -93,6 +108,11 @@ func readAll(stream []byte, cuts []int, maxLen int) ([]event, error) {
 			continue
 		}
 		evs = append(evs, event{frame: append([]byte{}, buf[:n]...)})
+		// the buffer is the caller's: what it does with it between two reads must
+		// not matter to frames still to come
+		for i := range buf {
+			buf[i] = 0xAA
+		}
 	}
 }
 
@@ -321,6 +341,8 @@ func TestPropChunking(t *testing.T) {
 			}
 			stream, spans = ns, nspans
 		}
+		emptyReadsEvery = rapid.SampledFrom([]int{0, 0, 1, 2, 3}).Draw(t, "emptyReadsEvery")
+		defer func() { emptyReadsEvery = 0 }()
 		cuts := genCuts(t, stream)
 		if len(forced) > 0 {
 			set := map[int]bool{}
@@ -357,6 +379,9 @@ func TestPropChunking(t *testing.T) {
 		}
 		if idle {
 			cls = append(cls, "idleDelimiterRuns")
+		}
+		if emptyReadsEvery > 0 {
+			cls = append(cls, "emptyDeviceReads")
 		}
 		for _, f := range frames {
 			if len(f) == maxPayloadFor(maxLen) {
